@@ -763,6 +763,7 @@ func c04NewServer(opts ...Option) (*Server, error) {
 	c.Name = "c04"
 	c.Host = "127.0.0.1"
 	c.Log.Mode = "console"
+	c.Mode = "dev"
 	return NewServer(c, opts...)
 }
 
